@@ -306,6 +306,8 @@ class Gen:
         if ctx == "top":
             if r.random() < 0.5:
                 lab = f"ref{len(self.ref_labels) + 1}"
+                if r.random() < 0.4:
+                    lab = f"ref label {len(self.ref_labels) + 1}"  # several words: the spaces inside the brackets are layout
                 self.ref_labels.append(lab)
                 self.feats.add("lrd")
                 title = r.choice([None, None, '"Title here"', '"it\'s"'])
@@ -458,6 +460,11 @@ class Gen:
                 b = {"t": "fence", "ch": "~", "n": 7, "info": "", "lines": b["lines"]}
             if out and out[-1]["t"] == "para" and b["t"] == "icode" and ctx != "top":
                 b = self.para()
+            if out and out[-1]["t"] in ("table", "heading", "lrd", "hr") and b["t"] == "para" and "task" not in b and self.r.random() < 0.3 \
+                    and not b["segs"][0][0].endswith(("\\.", "\\)")) and not _is_tagword(b["segs"][0][0]):
+                # the escape context of a paragraph must not depend on the block rendered before it
+                b["segs"][0].insert(0, self.r.choice(["1\\.", "1999\\.", "7\\)"]))
+                self.feats.add("escaped-marker-start-after-block")
             out.append(b)
         return out
 
@@ -546,6 +553,8 @@ class Ser:
             return text.replace(" ", "   ", 1) + "](" + rest if "`" not in text else w
         if w.startswith(("{%", "{{", "{#")) and '"' not in w and "'" not in w:
             return w.replace(" ", "  ", 1)
+        if w.startswith("[") and w.endswith("]") and "](" not in w and "`" not in w:
+            return w.replace(" ", "  ", 1)  # shortcut / full / collapsed reference: label and text are matched modulo space runs
         return w
 
     def blocks(self, blocks: list[dict], tight: bool = False) -> list[tuple[str, str]]:
@@ -579,7 +588,9 @@ class Ser:
         if t == "para":
             return self.para_lines(b)
         if t == "heading":
-            text = " ".join(b["words"])
+            # the number of spaces between two words of a heading is layout, like in a paragraph
+            text = "".join((("" if i == 0 else (" " if (not self.wild or L.random() < 0.85) else L.choice(["  ", "   ", " \t"]))) + w)
+                           for i, w in enumerate(b["words"]))
             if b["style"] == "atx":
                 return X(["#" * b["level"] + " " + text + (" " + "#" * L.randint(1, 3) if b.get("closing") else "")])
             return X([text, ("=" if b["level"] == 1 else "-") * max(3, min(len(text), 12))])
@@ -596,7 +607,8 @@ class Ser:
             return X(["    " + ln for ln in b["lines"]])
         if t == "table":
             def row(cells):
-                s_ = " | ".join(" ".join(c) for c in cells)
+                s_ = " | ".join("".join((("" if i == 0 else (" " if (not self.wild or L.random() < 0.85) else L.choice(["  ", "   "]))) + w)
+                                           for i, w in enumerate(c)) for c in cells)
                 return ("| " + s_ + " |") if outer else s_
             n = len(b["aligns"])
             outer = b["outer"] or n == 1
